@@ -263,6 +263,11 @@ func writeEvidence(o *runOpts, P *Prog, results []*FuncResult, undecided []strin
 	for _, k := range ts {
 		tb = append(tb, "trusted contract (body not verified): "+k)
 	}
+	for _, r := range results {
+		if r.Contract != nil && r.Contract.opt("padlemma") {
+			tb = append(tb, "assumed byte-string lemmas in "+r.Name+" (option padlemma; facts about big-endian strings injected at byte copies, not proved by the solver): a window disjoint from the copied range is unchanged; a window of zero bytes followed by the copied bytes has the value of the source; a store outside a window does not change it")
+		}
+	}
 	cov["trusted_base"] = tb
 	cov["havoc_calls"] = havoc
 	cov["effect_free_calls_assumed"] = eff
